@@ -22,7 +22,28 @@
 //! cell, `get_block_header` / `block_exists` of a deleted invalid block, and the node-API
 //! consequence (`HeaderVerifier` on a child of the deleted block).
 //!
-//! Replay: a case is regenerated from its `case <n> seed=<s>` line.
+//! Round 3 — classes, not instances:
+//!   * every delivery is preceded by the queries a peer / RPC client may issue for a block hash
+//!     the node has not stored yet (negative answers must not stick) and followed by the content
+//!     queries for the block and by liveness / guarded data / data-hash queries for every tracked
+//!     out-point, through the store handle, a snapshot and a store transaction;
+//!   * `kind=vc` cases (`run_vc_case`): a lock script whose verdict depends on the witness
+//!     (`script/testdata/exec_caller_from_witness`: exec the program in witness 0) and a `since`
+//!     (relative block number, or absolute timestamp against the median time). One tx hash under a
+//!     passing and a failing witness set, on three branches; every consumer of the verification
+//!     cache is probed on its hit path in a context where the cached transaction is immature
+//!     (after a reorganisation to a branch with a lower number / median time) and, for the failing
+//!     witnesses, in a context where it is mature: block verifier (extension and reorg attempt),
+//!     `test_accept_tx`, `submit_local_tx`, `notify_txs` (verify-queue worker);
+//!   * `kind=store` cases (`run_store_case`): the store alone. One RocksDB, three `ChainDB`s on
+//!     it (warm: default / size-1 / size-2 caches, all writes go through it; cold: size 0; fresh:
+//!     re-created before every round) and the answer recomputed from the raw rows. After every
+//!     insert / attach / detach / delete / rolled-back attach, every accessor is asked for every
+//!     block hash and out-point of the case — including those not stored yet — through the
+//!     handle, a snapshot and a transaction. Excluded (F6): content reads of a hash between its
+//!     `delete_block` and its re-insertion, bare data reads of a dead cell.
+//!
+//! Replay: a case is regenerated from its `case <n> seed=<s> [kind=pool|vc|store] [var=…]` line.
 use crate::common::*;
 use crate::node::*;
 use ckb_app_config::{BlockAssemblerConfig, NetworkConfig, StoreConfig, TxPoolConfig};
@@ -31,7 +52,14 @@ use ckb_chain::ChainServiceScope;
 use ckb_chain_spec::consensus::Consensus;
 use ckb_jsonrpc_types::ScriptHashType;
 use ckb_shared::{Shared, SharedBuilder};
-use ckb_store::ChainStore;
+use ckb_store::{ChainDB, ChainStore, attach_block_cell, detach_block_cell};
+use ckb_db::RocksDB;
+use ckb_db_schema::{COLUMNS, COLUMN_BLOCK_BODY, COLUMN_BLOCK_EXTENSION, COLUMN_BLOCK_HEADER, COLUMN_BLOCK_PROPOSAL_IDS, COLUMN_BLOCK_UNCLE, COLUMN_CELL, COLUMN_CELL_DATA, COLUMN_CELL_DATA_HASH};
+use ckb_types::core::cell::{CellChecker, CellProvider, CellStatus};
+use ckb_types::core::hardfork::CKB2021;
+use ckb_types::core::BlockExt;
+use ckb_types::packed::{CellDep, Script};
+use std::collections::HashSet;
 use ckb_test_chain_utils::always_success_cell;
 use ckb_types::core::{BlockView, Capacity, TransactionBuilder, TransactionView};
 use ckb_types::packed::{Byte32, CellInput, CellOutput, OutPoint};
@@ -115,6 +143,26 @@ impl N {
         let c = self.shared.txs_verify_cache();
         c.blocking_write().clear();
     }
+    /// `BlockTxsVerifier::update_cache` and the pool's cache update are spawned tasks: wait until
+    /// the verification cache has stopped changing (and, when `expect` is set, is not empty), so
+    /// that "emptied before every block" and "kept" mean what they say
+    fn settle(&self, expect: bool) {
+        let mut last = self.vcache_len();
+        let mut stable = 0;
+        for _ in 0..200 {
+            std::thread::sleep(std::time::Duration::from_millis(2));
+            let n = self.vcache_len();
+            if n == last && (!expect || n > 0) {
+                stable += 1;
+                if stable >= 3 {
+                    return;
+                }
+            } else {
+                stable = 0;
+                last = n;
+            }
+        }
+    }
     fn vcache_len(&self) -> usize {
         let c = self.shared.txs_verify_cache();
         let n = c.blocking_read().len();
@@ -128,6 +176,8 @@ fn classify(d: &str) -> &'static str {
         ("CellbaseImmaturity", "timerel"),
         ("InvalidSince", "timerel"),
         ("ExceededMaximumCycles", "cycles"),
+        ("ValidationFailure", "script"),
+        ("kind: Script", "script"),
         ("Commit(", "commit"),
         ("InvalidDAO", "dao"),
         ("kind: OutPoint", "resolve"),
@@ -173,6 +223,12 @@ struct Ctx<'a> {
     /// delivered, stored, not (yet) verified
     side: Vec<BlockView>,
     cyc: u64,
+    /// witness hashes whose script fails (`x` on the model line)
+    bad: HashSet<Byte32>,
+    /// out-points whose liveness / data is compared after every delivery
+    cells: Vec<OutPoint>,
+    /// a verdict or tip difference was reported: the two nodes are on different histories
+    diverged: bool,
 }
 
 impl Ctx<'_> {
@@ -183,10 +239,19 @@ impl Ctx<'_> {
 
     /// deliver one block to both nodes; `immature` = witness hashes whose time-relative check fails here
     fn deliver(&mut self, b: &BlockView, immature: &[Byte32], label: &str) {
+        // what a peer / an RPC client may ask about a hash the node does not know yet
+        if !self.blocks.iter().any(|x| x.hash() == b.hash()) {
+            self.compare_block_content(b, "before-delivery");
+        }
+        self.cold.settle(false);
         self.cold.clear_vcache();
         let tip_before = self.warm.shared.snapshot().tip_hash();
         let rc = self.cold.process(b);
         let rw = self.warm.process(b);
+        // a block that became the tip was verified: its results are on their way into the cache
+        let has_txs = b.transactions().len() > 1;
+        self.cold.settle(has_txs && rc.is_ok() && self.cold.shared.snapshot().tip_hash() == b.hash());
+        self.warm.settle(has_txs && rw.is_ok() && self.warm.shared.snapshot().tip_hash() == b.hash());
         self.blocks.push(b.clone());
         let canon = |r: &Result<bool, String>| match r {
             Ok(true) => "ok".to_string(),
@@ -197,10 +262,16 @@ impl Ctx<'_> {
         self.out.count(&format!("{}:{}", label, vw));
         if vc != vw {
             self.out.oracle_fail("verdict-differs", &format!("{} block {}: cold={} warm={} ({:?} / {:?})", label, b.number(), vc, vw, rc, rw));
+            self.diverged = true;
         }
         let (tc, tw) = (self.cold.shared.snapshot().tip_hash(), self.warm.shared.snapshot().tip_hash());
         if tc != tw {
             self.out.oracle_fail("tip-differs", &format!("{} block {}", label, b.number()));
+            self.diverged = true;
+        }
+        if !self.diverged {
+            self.compare_block_content(b, "after-delivery");
+            self.compare_cells(label);
         }
         // model tie: the blocks the warm node verified in this call, in order
         let store = self.warm.shared.store();
@@ -222,6 +293,7 @@ impl Ctx<'_> {
             }
             path.reverse();
             for (blk, ext) in path {
+                self.learn_content(&blk);
                 self.mark_verified(&blk.hash());
                 let line = self.blk_line(&blk, &[]);
                 let fees: Vec<u64> = ext.txs_fees.iter().map(|c| c.as_u64()).collect();
@@ -233,7 +305,7 @@ impl Ctx<'_> {
             self.side.push(b.clone());
         } else if let Err(d) = &rw {
             let c = classify(d);
-            if c == "timerel" || c == "cycles" {
+            if c == "timerel" || c == "cycles" || c == "script" {
                 // the attempt verified the stored, unverified ancestors first (results dropped with
                 // the DB transaction, verification-cache entries kept)
                 let mut anc = vec![];
@@ -244,6 +316,7 @@ impl Ctx<'_> {
                 }
                 anc.reverse();
                 for x in anc {
+                    self.learn_content(&x);
                     let l = self.blk_line(&x, &[]);
                     self.out.op(&format!("warm {}", l), "ok");
                 }
@@ -270,10 +343,80 @@ impl Ctx<'_> {
             .map(|t| {
                 let w = t.witness_hash();
                 let (fee, cyc) = *self.content.get(&w).expect("content known");
+                let cyc = if self.bad.contains(&w) { "x".to_string() } else { cyc.to_string() };
                 format!("{}:{}:1:{}:{}", self.wid(&w), if immature.contains(&w) { 0 } else { 1 }, cyc, fee)
             })
             .collect();
         if txs.is_empty() { "-".to_string() } else { txs.join(";") }
+    }
+
+    /// fees / cycles of transactions first seen in a block: read from the cold node's ext, i.e.
+    /// measured by a full verification (the cold node never takes the cached path)
+    fn learn_content(&mut self, blk: &BlockView) {
+        let missing = blk.transactions().iter().skip(1).any(|t| !self.content.contains_key(&t.witness_hash()));
+        if !missing {
+            return;
+        }
+        if let Some(ext) = self.cold.shared.store().get_block_ext(&blk.hash()) {
+            if let (fees, Some(cycles)) = (ext.txs_fees, ext.cycles) {
+                for (i, t) in blk.transactions().iter().skip(1).enumerate() {
+                    if let (Some(f), Some(c)) = (fees.get(i), cycles.get(i)) {
+                        self.content.entry(t.witness_hash()).or_insert((f.as_u64(), *c));
+                    }
+                }
+            }
+        }
+    }
+
+    /// the content accessors of one block hash on both nodes. Before the delivery the hash is
+    /// unknown to both; after it, it is stored on both or (refused and deleted — F6) skipped.
+    fn compare_block_content(&mut self, b: &BlockView, when: &str) {
+        let h = b.hash();
+        let (cs, ws) = (self.cold.shared.store(), self.warm.shared.store());
+        // the uncached header row decides whether the hash is stored (both nodes must agree)
+        let (pc, pw) = (cs.get_packed_block_header(&h).is_some(), ws.get_packed_block_header(&h).is_some());
+        if pc != pw {
+            self.out.oracle_fail("query-answer-differs", &format!("header row of block {} {}: cold={} warm={}", b.number(), when, pc, pw));
+            return;
+        }
+        if when == "after-delivery" && !pc {
+            return; // refused and deleted: bare reads of a deleted key are excluded (F6)
+        }
+        let mut n = 0u64;
+        let mut diffs = vec![];
+        for (name, f) in block_accessors() {
+            let (a, w) = (f(cs, &h), f(ws, &h));
+            n += 1;
+            let want = if pc { block_expected(name, b) } else { Some(block_absent(name)) };
+            if a != w || want.as_ref().is_some_and(|x| *x != w) {
+                diffs.push(format!("{} of block {} {}: cold={} warm={} from-rows={:?}", name, b.number(), when, short(&a), short(&w), want.as_ref().map(|x| short(x))));
+            }
+        }
+        self.out.evaluations += n;
+        *self.out.hist.entry(format!("queries-{}", when)).or_insert(0) += n;
+        for d in diffs {
+            self.out.oracle_fail("query-answer-differs", &d);
+        }
+    }
+
+    /// liveness and guarded data of every tracked out-point, through the three store views
+    fn compare_cells(&mut self, label: &str) {
+        let (cs, ws) = (self.cold.shared.store(), self.warm.shared.store());
+        let mut n = 0u64;
+        let mut diffs = vec![];
+        for op in &self.cells {
+            let a = cell_answers(cs, op);
+            let w = cell_answers(ws, op);
+            n += a.len() as u64;
+            if a != w {
+                diffs.push(format!("cell {:#x}:{} after {}: cold={:?} warm={:?}", op.tx_hash(), Unpack::<u32>::unpack(&op.index()), label, a, w));
+            }
+        }
+        self.out.evaluations += n;
+        *self.out.hist.entry("cell-queries-after-delivery".into()).or_insert(0) += n;
+        for d in diffs {
+            self.out.oracle_fail("query-answer-differs", &d);
+        }
     }
 
     /// every query answered by both nodes identically
@@ -334,6 +477,132 @@ impl Ctx<'_> {
     }
 }
 
+
+// ------------------------------------------------------------------------------------------------
+// canonical answers of the store accessors (shared by the node-level and the store-level cases)
+// ------------------------------------------------------------------------------------------------
+
+fn digest(bytes: &[u8]) -> String {
+    let d = ckb_hash::blake2b_256(bytes);
+    format!("{}:{}", bytes.len(), hex(&d[..6]))
+}
+
+fn short(s: &str) -> String {
+    if s.len() > 60 { format!("{}…", &s[..60]) } else { s.to_string() }
+}
+
+fn opt(x: Option<String>) -> String {
+    x.unwrap_or_else(|| "none".to_string())
+}
+
+fn canon_hashes(v: &[Byte32]) -> String {
+    if v.is_empty() {
+        return "none".to_string();
+    }
+    let mut all = vec![];
+    for h in v {
+        all.extend_from_slice(h.as_slice());
+    }
+    format!("{} {}", v.len(), digest(&all))
+}
+
+fn canon_block(b: &BlockView) -> String {
+    format!("{} ext={}", digest(b.data().as_slice()), opt(b.extension().map(|e| digest(e.as_slice()))))
+}
+
+const BLOCK_ACCESSORS: [&str; 10] = [
+    "get_block_header",
+    "block_exists",
+    "get_block_uncles",
+    "get_block_proposal_txs_ids",
+    "get_block_extension",
+    "get_block_txs_hashes",
+    "get_block",
+    "get_packed_block",
+    "get_block_body",
+    "get_cellbase",
+];
+
+fn block_accessors() -> Vec<(&'static str, fn(&ChainDB, &Byte32) -> String)> {
+    fn f0(s: &ChainDB, h: &Byte32) -> String { block_answer(s, 0, h) }
+    fn f1(s: &ChainDB, h: &Byte32) -> String { block_answer(s, 1, h) }
+    fn f2(s: &ChainDB, h: &Byte32) -> String { block_answer(s, 2, h) }
+    fn f3(s: &ChainDB, h: &Byte32) -> String { block_answer(s, 3, h) }
+    fn f4(s: &ChainDB, h: &Byte32) -> String { block_answer(s, 4, h) }
+    fn f5(s: &ChainDB, h: &Byte32) -> String { block_answer(s, 5, h) }
+    fn f6(s: &ChainDB, h: &Byte32) -> String { block_answer(s, 6, h) }
+    fn f7(s: &ChainDB, h: &Byte32) -> String { block_answer(s, 7, h) }
+    fn f8(s: &ChainDB, h: &Byte32) -> String { block_answer(s, 8, h) }
+    fn f9(s: &ChainDB, h: &Byte32) -> String { block_answer(s, 9, h) }
+    let fs: [fn(&ChainDB, &Byte32) -> String; 10] = [f0, f1, f2, f3, f4, f5, f6, f7, f8, f9];
+    BLOCK_ACCESSORS.iter().cloned().zip(fs).collect()
+}
+
+/// accessor number `a` of `BLOCK_ACCESSORS` on any store view
+fn block_answer<S: ChainStore>(s: &S, a: usize, h: &Byte32) -> String {
+    match a {
+        0 => opt(s.get_block_header(h).map(|x| digest(x.data().as_slice()))),
+        1 => s.block_exists(h).to_string(),
+        2 => opt(s.get_block_uncles(h).map(|x| digest(x.data().as_slice()))),
+        3 => opt(s.get_block_proposal_txs_ids(h).map(|x| digest(x.as_slice()))),
+        4 => opt(s.get_block_extension(h).map(|x| digest(x.as_slice()))),
+        5 => canon_hashes(&s.get_block_txs_hashes(h)),
+        6 => opt(s.get_block(h).map(|b| canon_block(&b))),
+        7 => opt(s.get_packed_block(h).map(|b| digest(b.as_slice()))),
+        8 => canon_hashes(&s.get_block_body(h).iter().map(|t| t.hash()).collect::<Vec<_>>()),
+        9 => opt(s.get_cellbase(h).map(|t| digest(t.hash().as_slice()))),
+        _ => unreachable!(),
+    }
+}
+
+/// the answer recomputed from the rows of a stored block: the rows are content-addressed, so it
+/// is a function of the block the harness built under that hash
+fn block_expected(name: &str, b: &BlockView) -> Option<String> {
+    Some(match name {
+        "get_block_header" => digest(b.header().data().as_slice()),
+        "block_exists" => "true".to_string(),
+        "get_block_uncles" => digest(b.uncles().data().as_slice()),
+        "get_block_proposal_txs_ids" => digest(b.data().proposals().as_slice()),
+        "get_block_extension" => opt(b.extension().map(|e| digest(e.as_slice()))),
+        "get_block_txs_hashes" | "get_block_body" => canon_hashes(b.tx_hashes()),
+        "get_block" => canon_block(b),
+        "get_packed_block" => digest(b.data().as_slice()),
+        "get_cellbase" => digest(b.transactions()[0].hash().as_slice()),
+        _ => return None,
+    })
+}
+
+fn block_absent(name: &str) -> String {
+    if name == "block_exists" { "false".to_string() } else { "none".to_string() }
+}
+
+fn canon_data(x: Option<(Bytes, Byte32)>) -> String {
+    opt(x.map(|(d, h)| format!("{} {}", digest(&d), hex(&h.as_slice()[..6]))))
+}
+
+/// liveness, meta and *guarded* data of one out-point through the handle, a snapshot and a
+/// store transaction (the three `ChainStore` views that share the read caches)
+fn cell_answers(s: &ChainDB, op: &OutPoint) -> Vec<String> {
+    let snap = s.get_snapshot();
+    let txn = s.begin_transaction();
+    let status = |st: CellStatus| match st {
+        CellStatus::Live(m) => format!("live {} {}", digest(m.cell_output.as_slice()), opt(m.mem_cell_data.as_ref().map(|d| digest(d)))),
+        CellStatus::Dead => "dead".to_string(),
+        CellStatus::Unknown => "unknown".to_string(),
+    };
+    vec![
+        format!("have_cell={}", s.have_cell(op)),
+        format!("snapshot.have_cell={}", snap.have_cell(op)),
+        format!("txn.have_cell={}", txn.have_cell(op)),
+        format!("txn.is_live={:?}", txn.is_live(op)),
+        format!("txn.cell={}", status(txn.cell(op, true))),
+        format!("get_cell={}", opt(s.get_cell(op).map(|m| format!("{} {}", digest(m.cell_output.as_slice()), m.data_bytes)))),
+        format!("data={}", if s.have_cell(op) { canon_data(s.get_cell_data(op)) } else { "none".into() }),
+        format!("snapshot.data_hash={}", if snap.have_cell(op) { opt(snap.get_cell_data_hash(op).map(|h| hex(&h.as_slice()[..6]))) } else { "none".into() }),
+        format!("txn.data_hash={}", if txn.have_cell(op) { opt(txn.get_cell_data_hash(op).map(|h| hex(&h.as_slice()[..6]))) } else { "none".into() }),
+    ]
+}
+
 fn out_cap(t: &TransactionView) -> u64 {
     let c: u64 = t.outputs().get(0).unwrap().capacity().unpack();
     c
@@ -383,12 +652,12 @@ fn run_case(out: &mut Out, seed: u64, base: &Path, cyc: u64) {
     let warm = start(&dir.join("warm"), consensus.clone(), small);
     let mut bld = ChainBuilder::new(consensus.clone(), &dir.join("builder"));
     let cells = genesis_cells(&consensus);
-    let mut c = Ctx { out, cold, warm, ids: HashMap::new(), content: HashMap::new(), blocks: vec![], side: vec![], cyc };
+    let mut c = Ctx { out, cold, warm, ids: HashMap::new(), content: HashMap::new(), blocks: vec![], side: vec![], cyc, bad: HashSet::new(), cells: vec![], diverged: false };
     c.out.op(&format!("max {}", consensus.max_block_cycles()), "ok");
     // what an RPC `get_live_cell(with_data)` does while the cell is live: fills the cell-data cache
     for n in [&c.cold, &c.warm] {
         let st = n.shared.store();
-        assert!(st.have_cell(&cells[0].0) && st.get_cell_data(&cells[0].0).is_some());
+        assert!(st.have_cell(&cells[0].0) && st.get_cell_data(&cells[0].0).is_some() && st.get_cell_data_hash(&cells[0].0).is_some());
     }
 
     // transactions: A plain; A2 = A with another witness (same hash); S spends A's output with a
@@ -404,6 +673,10 @@ fn run_case(out: &mut Out, seed: u64, base: &Path, cyc: u64) {
     let b_tx = spend(&cells[1..2], 0, 2000 + rng.below(100), 3, None);
     for (t, fee) in [(&a, fee_a), (&a2, fee_a), (&s, a_cap - out_cap(&s)), (&b_tx, cells[1].1 - out_cap(&b_tx))] {
         c.content.insert(t.witness_hash(), (fee, cyc * t.inputs().len() as u64));
+    }
+    c.cells = cells.iter().map(|x| x.0.clone()).collect();
+    for t in [&a, &s, &b_tx] {
+        c.cells.push(OutPoint::new(t.hash(), 0));
     }
     let props = vec![a.proposal_short_id(), s.proposal_short_id(), b_tx.proposal_short_id()];
     let g = consensus.genesis_hash();
@@ -534,6 +807,22 @@ fn run_case(out: &mut Out, seed: u64, base: &Path, cyc: u64) {
         let (dc, dw) = (c.cold.shared.store().get_cell_data(&spent).is_some(), c.warm.shared.store().get_cell_data(&spent).is_some());
         c.out.count(&format!("F6:bare-get_cell_data-of-spent:cold={},warm={}", dc, dw));
     }
+    // ---- switch back: branch 1 grows past branch 2 — branch 2 is detached, the already verified
+    // blocks of branch 1 are attached again (no verification), every cell changes hands once more
+    {
+        let target = c.warm.shared.snapshot().tip_header().number() + 1;
+        let mut hh = len1;
+        while hh < target {
+            salt += 1;
+            let b = bld.build(&t1, &BlockSpec { salt, ..Default::default() });
+            c.deliver(&b, &[], "switch-back");
+            t1 = b.hash();
+            hh += 1;
+        }
+        if c.warm.shared.snapshot().tip_hash() != t1 {
+            c.out.oracle_fail("setup", "branch 1 did not become the main chain again");
+        }
+    }
     let mut ops: Vec<OutPoint> = cells.iter().map(|x| x.0.clone()).collect();
     for t in [&a, &s, &b_tx] {
         ops.push(OutPoint::new(t.hash(), 0));
@@ -573,7 +862,7 @@ fn run_pool_case(out: &mut Out, seed: u64, base: &Path, cyc: u64) {
     let warm = start_with(&dir.join("warm"), consensus.clone(), StoreConfig::default(), Some(tp));
     let mut bld = ChainBuilder::new(consensus.clone(), &dir.join("builder"));
     let cells = genesis_cells(&consensus);
-    let mut c = Ctx { out, cold, warm, ids: HashMap::new(), content: HashMap::new(), blocks: vec![], side: vec![], cyc };
+    let mut c = Ctx { out, cold, warm, ids: HashMap::new(), content: HashMap::new(), blocks: vec![], side: vec![], cyc, bad: HashSet::new(), cells: vec![], diverged: false };
     c.out.op(&format!("max {}", consensus.max_block_cycles()), "ok");
     let fee1 = 1500 + rng.below(500);
     let p1 = spend(&cells[0..1], 0, fee1, 1, None);
@@ -686,6 +975,753 @@ fn run_pool_case(out: &mut Out, seed: u64, base: &Path, cyc: u64) {
     drop(bld);
 }
 
+
+// ------------------------------------------------------------------------------------------------
+// kind=vc: every consumer of the verification cache, witness-dependent lock, since-dependent context
+// ------------------------------------------------------------------------------------------------
+
+const EXEC_CALLER: &[u8] = include_bytes!("/repo/script/testdata/exec_caller_from_witness");
+const EXEC_CALLEE: &[u8] = include_bytes!("/repo/script/testdata/exec_callee");
+const ALWAYS_FAILURE: &[u8] = include_bytes!("/repo/script/testdata/always_failure");
+const ABS_TIMESTAMP: u64 = 0x4000_0000_0000_0000;
+
+/// `make_consensus` with VM version 1 (`exec`, hash type `data1`) active from epoch 0
+fn make_consensus_vm1(cfg: &NodeCfg) -> Consensus {
+    let mut c = make_consensus(cfg);
+    c.hardfork_switch.ckb2021 = CKB2021::new_mirana().as_builder().rfc_0032(0).build().expect("hardfork");
+    c
+}
+
+fn pool_class(d: &str) -> String {
+    for (p, c) in [
+        ("Immature", "timerel"),
+        ("CellbaseImmaturity", "timerel"),
+        ("InvalidSince", "timerel"),
+        ("ExceededMaximumCycles", "cycles"),
+        ("ValidationFailure", "script"),
+        ("Duplicated", "duplicated"),
+        ("Resolve(", "resolve"),
+        ("RBFRejected", "rbf"),
+    ] {
+        if d.contains(p) {
+            return format!("err {}", c);
+        }
+    }
+    format!("err other:{}", d.split(['(', ' ']).next().unwrap_or("?"))
+}
+
+/// the median of the last `n` timestamps ending at `hash` (the harness's own computation)
+fn median_time(bld: &ChainBuilder, hash: &Byte32, n: usize) -> u64 {
+    let mut ts = vec![];
+    let mut h = hash.clone();
+    for _ in 0..n {
+        let b = bld.block(&h);
+        ts.push(b.timestamp());
+        if b.number() == 0 {
+            break;
+        }
+        h = b.parent_hash();
+    }
+    ts.sort_unstable();
+    ts[ts.len() >> 1]
+}
+
+struct Probe<'a> {
+    tx: &'a TransactionView,
+    /// the harness's own judgement of the context: time-relative checks pass
+    mature: bool,
+}
+
+impl Ctx<'_> {
+    fn wait_pools(&self) {
+        for n in [&self.cold, &self.warm] {
+            for _ in 0..400 {
+                let tip = n.shared.snapshot().tip_hash();
+                match n.shared.tx_pool_controller().get_tx_pool_info() {
+                    Ok(i) if i.tip_hash == tip && i.verify_queue_size == 0 => break,
+                    _ => std::thread::sleep(std::time::Duration::from_millis(5)),
+                }
+            }
+        }
+    }
+
+    fn pool_ids(n: &N) -> Vec<String> {
+        let ids = n.shared.tx_pool_controller().get_all_ids().expect("ids");
+        let mut v: Vec<String> = ids.pending.iter().chain(ids.proposed.iter()).map(|h| format!("{:#x}", h)).collect();
+        v.sort();
+        v
+    }
+
+    fn same_pools(&mut self, label: &str) {
+        self.wait_pools();
+        std::thread::sleep(std::time::Duration::from_millis(60));
+        self.wait_pools();
+        let (ic, iw) = (Self::pool_ids(&self.cold), Self::pool_ids(&self.warm));
+        self.out.count(&format!("pool:{}:cold-has={},warm-has={}", label, ic.len(), iw.len()));
+        self.out.evaluations += 1;
+        if ic != iw {
+            self.out.oracle_fail("pool-content-differs", &format!("{}: cold pool {:?}, warm pool {:?}", label, ic, iw));
+            self.diverged = true;
+        }
+    }
+
+    /// one pool request on both nodes (cold: verification cache emptied first); `how` is
+    /// `tst` (test_accept_tx), `sub` (submit_local_tx) or `ntf` (notify_txs: verify-queue worker)
+    fn pool_probe(&mut self, how: &str, p: &Probe, label: &str) {
+        self.wait_pools();
+        self.cold.settle(false);
+        self.cold.clear_vcache();
+        let ask = |n: &N| -> String {
+            let ctl = n.shared.tx_pool_controller();
+            match how {
+                "tst" => match ctl.test_accept_tx(p.tx.clone()) {
+                    Ok(Ok(c)) => format!("ok cycles={} fee={}", c.cycles, c.fee.as_u64()),
+                    Ok(Err(r)) => pool_class(&format!("{:?}", r)),
+                    Err(e) => format!("fail {}", e),
+                },
+                "sub" => match ctl.submit_local_tx(p.tx.clone()) {
+                    Ok(Ok(())) => "ok".to_string(),
+                    Ok(Err(r)) => pool_class(&format!("{:?}", r)),
+                    Err(e) => format!("fail {}", e),
+                },
+                _ => match ctl.notify_txs(vec![p.tx.clone()]) {
+                    Ok(()) => "queued".to_string(),
+                    Err(e) => format!("fail {}", e),
+                },
+            }
+        };
+        let (rc, rw) = (ask(&self.cold), ask(&self.warm));
+        self.out.count(&format!("vc:{}:{}:cold={},warm={}", how, label, rc.split(" cycles").next().unwrap(), rw.split(" cycles").next().unwrap()));
+        self.out.evaluations += 2;
+        if rc != rw {
+            self.out.oracle_fail("pool-verdict-differs", &format!("{} {}: the pool with an empty verification cache answers `{}`, the warm one `{}`", how, label, rc, rw));
+            self.diverged = true;
+        }
+        if how == "ntf" {
+            self.same_pools(&format!("after-ntf-{}", label));
+            return;
+        }
+        self.cold.settle(false);
+        self.warm.settle(false);
+        // model tie: the warm pool's answer against the model's cached path
+        let head = rw.split(' ').take(2).collect::<Vec<_>>().join(" ");
+        if rw.starts_with("ok") || head == "err timerel" || head == "err script" {
+            let w = p.tx.witness_hash();
+            if let Some((fee, cyc)) = self.content.get(&w).cloned() {
+                let cyc = if self.bad.contains(&w) { "x".to_string() } else { cyc.to_string() };
+                let line = format!("{} {}:{}:1:{}:{}", how, self.wid(&w), if p.mature { 1 } else { 0 }, cyc, fee);
+                self.out.op(&line, &rw);
+            }
+        }
+    }
+
+    fn wait_warm_entry(&self, tx: &TransactionView) {
+        let c = self.warm.shared.txs_verify_cache();
+        for _ in 0..300 {
+            {
+                let g = c.blocking_read();
+                if g.contains(&tx.witness_hash()) || g.contains(&tx.hash()) {
+                    return;
+                }
+            }
+            std::thread::sleep(std::time::Duration::from_millis(3));
+        }
+    }
+}
+
+fn run_vc_case(out: &mut Out, seed: u64, base: &Path, cyc: u64, var: Option<&str>) {
+    let mut rng = Rng::new(seed ^ 0xC14C);
+    let ts_variant = match var {
+        Some("ts") => true,
+        Some("rel") => false,
+        _ => rng.chance(1, 2),
+    };
+    out.begin_case(&format!("seed={} kind=vc var={}", seed, if ts_variant { "ts" } else { "rel" }));
+    // window (1, 12): the pool's notion of "the earliest block the tx can be committed in" differs by
+    // status (fresh / gap / proposed) by at most closest + 1 = 2 blocks; the contexts probed below
+    // are immature resp. mature under every one of them
+    let cfg = NodeCfg { epoch_len: rng.range(12, 16), window: (1, 12), genesis_cells: 6, ..Default::default() };
+    let consensus = make_consensus_vm1(&cfg);
+    let dir = base.join(format!("vc-{}-{}", seed, if ts_variant { "ts" } else { "rel" }));
+    let _ = std::fs::remove_dir_all(&dir);
+    let zero = StoreConfig { header_cache_size: 0, cell_data_cache_size: 0, block_proposals_cache_size: 0, block_tx_hashes_cache_size: 0, block_uncles_cache_size: 0, block_extensions_cache_size: 0, freezer_enable: false };
+    let tp = TxPoolConfig::default();
+    let cold = start_with(&dir.join("cold"), consensus.clone(), zero, Some(tp.clone()));
+    let warm = start_with(&dir.join("warm"), consensus.clone(), StoreConfig::default(), Some(tp));
+    let mut bld = ChainBuilder::new(consensus.clone(), &dir.join("builder"));
+    let cells = genesis_cells(&consensus);
+    let mut c = Ctx { out, cold, warm, ids: HashMap::new(), content: HashMap::new(), blocks: vec![], side: vec![], cyc, bad: HashSet::new(), cells: vec![], diverged: false };
+    c.out.op(&format!("max {}", consensus.max_block_cycles()), "ok");
+
+    // ---- transactions
+    let (_, _, always) = always_success_cell();
+    let exec_data = Bytes::from(EXEC_CALLER.to_vec());
+    let exec_lock = Script::new_builder().hash_type(ckb_types::core::ScriptHashType::Data1).code_hash(CellOutput::calc_data_hash(&exec_data)).build();
+    let ckb = 100_000_000u64;
+    let fee_de = 3000 + rng.below(700);
+    let (code_cap, e_cap) = (2_000 * ckb, 5_000 * ckb);
+    // DE: deploys the lock's code (output 0) and creates E, a cell under that lock (output 1)
+    let de = TransactionBuilder::default()
+        .cell_dep(always_success_dep())
+        .input(CellInput::new(cells[2].0.clone(), 0))
+        .output(CellOutput::new_builder().capacity(Capacity::shannons(code_cap)).lock(always.clone()).build())
+        .output_data(exec_data.clone())
+        .output(CellOutput::new_builder().capacity(Capacity::shannons(e_cap)).lock(exec_lock.clone()).build())
+        .output_data(Bytes::new())
+        .output(CellOutput::new_builder().capacity(Capacity::shannons(cells[2].1 - code_cap - e_cap - fee_de)).lock(always.clone()).build())
+        .output_data(Bytes::from(seed.to_le_bytes().to_vec()))
+        .build();
+    let rel = rng.range(3, 4);
+    let secs = 10_000 + rng.below(5_000);
+    let since = if ts_variant { ABS_TIMESTAMP | secs } else { REL_BLOCKS | rel };
+    let fee_t = 5000 + rng.below(900);
+    // T spends E; the lock execs witness 0: the same tx hash under a passing and a failing witness
+    let t_of = |witness: &[u8]| {
+        TransactionBuilder::default()
+            .cell_dep(CellDep::new_builder().out_point(OutPoint::new(de.hash(), 0)).build())
+            .input(CellInput::new(OutPoint::new(de.hash(), 1), since))
+            .output(CellOutput::new_builder().capacity(Capacity::shannons(e_cap - fee_t)).lock(always.clone()).build())
+            .output_data(Bytes::from(vec![7u8; 8]))
+            .witness(Bytes::from(witness.to_vec()).pack())
+            .build()
+    };
+    let good = t_of(EXEC_CALLEE);
+    let bad = t_of(ALWAYS_FAILURE);
+    assert_eq!(good.hash(), bad.hash());
+    assert_ne!(good.witness_hash(), bad.witness_hash());
+    c.bad.insert(bad.witness_hash());
+    c.content.insert(de.witness_hash(), (fee_de, cyc));
+    c.cells = vec![cells[2].0.clone(), OutPoint::new(de.hash(), 0), OutPoint::new(de.hash(), 1), OutPoint::new(de.hash(), 2), OutPoint::new(good.hash(), 0)];
+    let props = vec![de.proposal_short_id(), good.proposal_short_id()];
+
+    let g = consensus.genesis_hash();
+    let mut salt = seed * 1000 + 700;
+    let mut next = |tip: &Byte32, bld: &mut ChainBuilder, txs: Vec<TransactionView>, props: Vec<ckb_types::packed::ProposalShortId>, ts: Option<u64>| {
+        salt += 1;
+        bld.build(tip, &BlockSpec { txs, proposals: props, salt, timestamp: ts, ..Default::default() })
+    };
+    macro_rules! stop_if_diverged {
+        () => {
+            if c.diverged {
+                c.out.count("vc:stopped-after-divergence");
+                let Ctx { cold, warm, .. } = c;
+                std::mem::forget(cold);
+                std::mem::forget(warm);
+                drop(bld);
+                return;
+            }
+        };
+    }
+    let median_n = consensus.median_time_block_count();
+    let late0 = 20_000_000u64 + rng.below(1000);
+    // ---- common prefix: block 1 proposes DE and T; (ts variant) block 2 commits DE
+    let p1 = next(&g, &mut bld, vec![], props.clone(), None);
+    c.deliver(&p1, &[], "vc:prefix");
+    let mut fork = p1.hash();
+    if ts_variant {
+        let b = next(&fork, &mut bld, vec![de.clone()], vec![], None);
+        c.deliver(&b, &[], "vc:prefix-DE");
+        fork = b.hash();
+    }
+    let fork_at = bld.block(&fork).number() + 1;
+    // ---- branch A: T with the passing witnesses, mature
+    let mut ta = fork.clone();
+    let mut late = late0;
+    let a_len;
+    if ts_variant {
+        // late timestamps until the median time of the parent passes the since value
+        while median_time(&bld, &ta, median_n) < secs * 1000 {
+            late += 1;
+            let b = next(&ta, &mut bld, vec![], vec![], Some(late));
+            c.deliver(&b, &[], "vc:A-late");
+            ta = b.hash();
+        }
+        late += 1;
+        let b = next(&ta, &mut bld, vec![good.clone()], vec![], Some(late));
+        c.deliver(&b, &[], "vc:A-commit-T");
+        ta = b.hash();
+        a_len = b.number();
+    } else {
+        let b = next(&ta, &mut bld, vec![de.clone()], vec![], None);
+        c.deliver(&b, &[], "vc:A-DE");
+        ta = b.hash();
+        for _ in 1..rel {
+            let b = next(&ta, &mut bld, vec![], vec![], None);
+            c.deliver(&b, &[], "vc:A-empty");
+            ta = b.hash();
+        }
+        let b = next(&ta, &mut bld, vec![good.clone()], vec![], None);
+        assert_eq!(b.number(), fork_at + rel);
+        c.deliver(&b, &[], "vc:A-commit-T");
+        ta = b.hash();
+        a_len = b.number();
+    }
+    let _ = ta;
+    stop_if_diverged!();
+    c.wait_warm_entry(&good);
+    let t_content = *c.content.get(&good.witness_hash()).expect("T verified on branch A");
+    c.content.entry(bad.witness_hash()).or_insert(t_content);
+    c.same_pools("after-branch-A");
+
+    // ---- branch B: the same tx hash with the failing witnesses, mature, on the block that makes B
+    // the heaviest: refused by a node without cache (script), so it must be refused with one
+    let mut tb = fork.clone();
+    if ts_variant {
+        let mut l = late0 + 500;
+        while bld.block(&tb).number() < a_len {
+            l += 1;
+            let b = next(&tb, &mut bld, vec![], vec![], Some(l));
+            c.deliver(&b, &[], "vc:B-late");
+            tb = b.hash();
+        }
+        assert!(median_time(&bld, &tb, median_n) >= secs * 1000);
+        let b = next(&tb, &mut bld, vec![bad.clone()], vec![], Some(l + 1));
+        c.deliver(&b, &[], "vc:B-commit-T-failing-witness");
+    } else {
+        let b = next(&tb, &mut bld, vec![de.clone()], vec![], None);
+        c.deliver(&b, &[], "vc:B-DE");
+        tb = b.hash();
+        while bld.block(&tb).number() < a_len {
+            let b = next(&tb, &mut bld, vec![], vec![], None);
+            c.deliver(&b, &[], "vc:B-empty");
+            tb = b.hash();
+        }
+        let b = next(&tb, &mut bld, vec![bad.clone()], vec![], None);
+        c.deliver(&b, &[], "vc:B-commit-T-failing-witness");
+    }
+    stop_if_diverged!();
+
+    // ---- branch C: valid, heavier, and T is immature in its context (lower number of the block
+    // that created E / lower median time)
+    let mut tc = fork.clone();
+    let e_height_c;
+    if ts_variant {
+        while bld.block(&tc).number() < a_len + 1 {
+            let b = next(&tc, &mut bld, vec![], vec![], None);
+            c.deliver(&b, &[], "vc:C-early");
+            tc = b.hash();
+        }
+        e_height_c = 0;
+        assert!(median_time(&bld, &tc, median_n) < secs * 1000);
+    } else {
+        while bld.block(&tc).number() < a_len {
+            let b = next(&tc, &mut bld, vec![], vec![], None);
+            c.deliver(&b, &[], "vc:C-empty");
+            tc = b.hash();
+        }
+        let b = next(&tc, &mut bld, vec![de.clone()], vec![], None);
+        e_height_c = b.number();
+        assert_eq!(e_height_c, a_len + 1);
+        c.deliver(&b, &[], "vc:C-DE-late");
+        tc = b.hash();
+        // immature under every pool status: tip + 1 + closest < E's block + rel
+        assert!(b.number() + 2 < e_height_c + rel);
+    }
+    stop_if_diverged!();
+    if c.warm.shared.snapshot().tip_hash() != tc {
+        c.out.oracle_fail("vc-setup", "branch C did not become the main chain");
+    }
+    c.same_pools("after-reorg-to-C");
+    let imm = Probe { tx: &good, mature: false };
+    let imm_bad = Probe { tx: &bad, mature: false };
+    let mut order = vec![("tst", &imm, "T-immature"), ("sub", &imm, "T-immature"), ("ntf", &imm, "T-immature"), ("sub", &imm_bad, "T-failing-witness-immature")];
+    if rng.chance(1, 2) {
+        order.swap(0, 1);
+    }
+    for (how, p, label) in order {
+        c.pool_probe(how, p, label);
+        stop_if_diverged!();
+    }
+    c.same_pools("after-immature-probes");
+    stop_if_diverged!();
+    // a block on C committing T while immature: refused by both (warm: cached path)
+    {
+        let b = next(&tc, &mut bld, vec![good.clone()], vec![], None);
+        c.deliver(&b, &[good.witness_hash()], "vc:C-commit-T-immature");
+        stop_if_diverged!();
+    }
+    if !ts_variant {
+        // ---- C grows until T is mature under every pool status: tip - 1 + closest >= E's block + rel
+        while bld.block(&tc).number() < e_height_c + rel {
+            let b = next(&tc, &mut bld, vec![], vec![], None);
+            c.deliver(&b, &[], "vc:C-empty");
+            tc = b.hash();
+        }
+        stop_if_diverged!();
+        let mat = Probe { tx: &good, mature: true };
+        let mat_bad = Probe { tx: &bad, mature: true };
+        for (how, p, label) in [
+            ("tst", &mat_bad, "T-failing-witness-mature"),
+            ("sub", &mat_bad, "T-failing-witness-mature"),
+            ("ntf", &mat_bad, "T-failing-witness-mature"),
+            ("tst", &mat, "T-mature"),
+            ("sub", &mat, "T-mature"),
+            ("sub", &mat_bad, "T-failing-witness-after-T-in-pool"),
+        ] {
+            c.pool_probe(how, p, label);
+            stop_if_diverged!();
+        }
+        c.same_pools("after-mature-probes");
+        stop_if_diverged!();
+        // the pools have verified T themselves (entry written by the pool); T is taken out again and
+        // the failing witnesses are offered once more: still a script failure
+        let removed = (c.cold.shared.tx_pool_controller().remove_local_tx(good.hash()).expect("remove"), c.warm.shared.tx_pool_controller().remove_local_tx(good.hash()).expect("remove"));
+        c.out.count(&format!("vc:remove_local_tx:cold={},warm={}", removed.0, removed.1));
+        if removed.0 != removed.1 {
+            c.out.oracle_fail("pool-content-differs", &format!("remove_local_tx(T): cold={} warm={}", removed.0, removed.1));
+        }
+        for (how, p, label) in [
+            ("tst", &mat_bad, "T-failing-witness-after-pool-verified-T"),
+            ("sub", &mat_bad, "T-failing-witness-after-pool-verified-T"),
+            ("sub", &mat, "T-mature-again"),
+        ] {
+            c.pool_probe(how, p, label);
+            stop_if_diverged!();
+        }
+        c.same_pools("after-second-mature-probes");
+        stop_if_diverged!();
+        let b = next(&tc, &mut bld, vec![good.clone()], vec![], None);
+        c.deliver(&b, &[], "vc:C-commit-T-mature");
+        stop_if_diverged!();
+        c.same_pools("after-commit-on-C");
+    }
+    let mut ops: Vec<OutPoint> = c.cells.clone();
+    ops.extend(cells.iter().map(|x| x.0.clone()));
+    c.compare_queries(&ops);
+    c.out.nontrivial(format!("vc|{}|{}|{}", if ts_variant { "ts" } else { "rel" }, cfg.epoch_len, if ts_variant { secs % 5 } else { rel }));
+    let Ctx { cold, warm, .. } = c;
+    std::mem::forget(cold);
+    std::mem::forget(warm);
+    drop(bld);
+}
+
+// ------------------------------------------------------------------------------------------------
+// kind=store: the store alone — warm / cold / fresh `ChainDB`s over one RocksDB, and the raw rows
+// ------------------------------------------------------------------------------------------------
+
+#[derive(Clone, Copy, PartialEq, Debug)]
+enum St {
+    Never,
+    Stored,
+    Deleted,
+}
+
+/// the model's column names of the five block-part read caches, by accessor number
+fn cached_col(a: usize) -> Option<&'static str> {
+    match a {
+        0 => Some("hdr"),
+        2 => Some("unc"),
+        3 => Some("prop"),
+        4 => Some("ext"),
+        5 => Some("txh"),
+        _ => None,
+    }
+}
+
+fn cell_expected(op: &OutPoint, output: &CellOutput, data: &Bytes, live: bool) -> Vec<String> {
+    let _ = op;
+    if !live {
+        return vec![
+            "have_cell=false".into(),
+            "snapshot.have_cell=false".into(),
+            "txn.have_cell=false".into(),
+            "txn.is_live=None".into(),
+            "txn.cell=unknown".into(),
+            "get_cell=none".into(),
+            "data=none".into(),
+            "snapshot.data_hash=none".into(),
+            "txn.data_hash=none".into(),
+        ];
+    }
+    let dh = if data.is_empty() { Byte32::zero() } else { CellOutput::calc_data_hash(data) };
+    vec![
+        "have_cell=true".into(),
+        "snapshot.have_cell=true".into(),
+        "txn.have_cell=true".into(),
+        "txn.is_live=Some(true)".into(),
+        format!("txn.cell=live {} {}", digest(output.as_slice()), digest(data)),
+        format!("get_cell={} {}", digest(output.as_slice()), data.len()),
+        format!("data={}", canon_data(Some((data.clone(), dh.clone())))),
+        format!("snapshot.data_hash={}", hex(&dh.as_slice()[..6])),
+        format!("txn.data_hash={}", hex(&dh.as_slice()[..6])),
+    ]
+}
+
+fn run_store_case(out: &mut Out, seed: u64, base: &Path) {
+    let mut rng = Rng::new(seed ^ 0x5709E);
+    out.begin_case(&format!("seed={} kind=store", seed));
+    let cfg = NodeCfg { epoch_len: rng.range(4, 8), window: (1, 10), genesis_cells: 5, ..Default::default() };
+    let consensus = make_consensus(&cfg);
+    let dir = base.join(format!("store-{}", seed));
+    let _ = std::fs::remove_dir_all(&dir);
+    let mut bld = ChainBuilder::new(consensus.clone(), &dir.join("builder"));
+    let cells = genesis_cells(&consensus);
+    let (_, _, always) = always_success_cell();
+    // ---- the block tree
+    let t1 = spend_tx(&cells[0..1], 2, 1000 + rng.below(100), 11);
+    let t1_caps: Vec<u64> = t1.outputs().into_iter().map(|o| Unpack::<Capacity>::unpack(&o.capacity()).as_u64()).collect();
+    // t2: an output with EMPTY data (the data / data-hash rows are empty, the answer is (empty, zero))
+    let t2 = TransactionBuilder::default()
+        .cell_dep(always_success_dep())
+        .input(CellInput::new(OutPoint::new(t1.hash(), 0), 0))
+        .output(CellOutput::new_builder().capacity(Capacity::shannons(t1_caps[0] - 500)).lock(always.clone()).build())
+        .output_data(Bytes::new())
+        .build();
+    let t3 = spend_tx(&cells[1..2], 1, 700, 13);
+    let t4 = spend_tx(&[(OutPoint::new(t2.hash(), 0), t1_caps[0] - 500), (OutPoint::new(t1.hash(), 1), t1_caps[1])], 1, 900, 14);
+    let u1 = spend_tx(&cells[0..1], 1, 1200, 21);
+    let u1_cap: u64 = Unpack::<Capacity>::unpack(&u1.outputs().get(0).unwrap().capacity()).as_u64();
+    let u2 = spend_tx(&[(OutPoint::new(u1.hash(), 0), u1_cap), cells[1].clone()], 2, 800, 22);
+    let g = consensus.genesis_hash();
+    let mut salt = seed * 1000 + 300;
+    let mut mk = |bld: &mut ChainBuilder, parent: &Byte32, txs: Vec<TransactionView>, props: Vec<ckb_types::packed::ProposalShortId>, uncles: Vec<ckb_types::core::UncleBlockView>, tweak: Tweak| {
+        salt += 1;
+        bld.build(parent, &BlockSpec { txs, proposals: props, uncles, salt, tweak, ..Default::default() })
+    };
+    let m1 = mk(&mut bld, &g, vec![], vec![t1.proposal_short_id(), t2.proposal_short_id(), u1.proposal_short_id()], vec![], Tweak::None);
+    let f2 = mk(&mut bld, &m1.hash(), vec![u1.clone()], vec![u2.proposal_short_id()], vec![], Tweak::None);
+    let m2 = mk(&mut bld, &m1.hash(), vec![t1.clone()], vec![t3.proposal_short_id()], vec![], Tweak::None);
+    let m3 = mk(&mut bld, &m2.hash(), vec![t2.clone(), t3.clone()], vec![], vec![f2.as_uncle()], Tweak::None);
+    let m4 = mk(&mut bld, &m3.hash(), vec![t4.clone()], vec![], vec![], Tweak::None);
+    let m5 = mk(&mut bld, &m4.hash(), vec![], vec![], vec![], Tweak::None);
+    let f3 = mk(&mut bld, &f2.hash(), vec![u2.clone()], vec![], vec![], Tweak::None);
+    let f4 = mk(&mut bld, &f3.hash(), vec![], vec![], vec![], Tweak::None);
+    // a stored block that has no extension row at all
+    let f5 = mk(&mut bld, &f4.hash(), vec![], vec![], vec![], Tweak::NoExtension);
+    assert!(f5.extension().is_none() && m1.extension().is_some());
+    let ub: Vec<BlockView> = vec![consensus.genesis_block().clone(), m1, m2, m3, m4, m5, f2, f3, f4, f5];
+    let id_of: HashMap<Byte32, usize> = ub.iter().enumerate().map(|(i, b)| (b.hash(), i)).collect();
+    let mut uc: Vec<(OutPoint, CellOutput, Bytes)> = vec![];
+    for b in &ub {
+        for t in b.transactions() {
+            for (i, (o, d)) in t.outputs_with_data_iter().enumerate() {
+                uc.push((OutPoint::new(t.hash(), i as u32), o, d));
+            }
+        }
+    }
+    let cid: HashMap<OutPoint, usize> = uc.iter().enumerate().map(|(i, c)| (c.0.clone(), i)).collect();
+
+    // ---- the stores
+    let zero = StoreConfig { header_cache_size: 0, cell_data_cache_size: 0, block_proposals_cache_size: 0, block_tx_hashes_cache_size: 0, block_uncles_cache_size: 0, block_extensions_cache_size: 0, freezer_enable: false };
+    let (warm_kind, warm_cfg) = match rng.below(3) {
+        0 => ("default", StoreConfig::default()),
+        1 => ("size-1", StoreConfig { header_cache_size: 1, cell_data_cache_size: 1, block_proposals_cache_size: 1, block_tx_hashes_cache_size: 1, block_uncles_cache_size: 1, block_extensions_cache_size: 1, freezer_enable: false }),
+        _ => ("size-3", StoreConfig { header_cache_size: 3, cell_data_cache_size: 3, block_proposals_cache_size: 3, block_tx_hashes_cache_size: 3, block_uncles_cache_size: 3, block_extensions_cache_size: 3, freezer_enable: false }),
+    };
+    let db = RocksDB::open_in(dir.join("db"), COLUMNS);
+    let w = ChainDB::new(db.clone(), warm_cfg);
+    let z = ChainDB::new(db.clone(), zero);
+    w.init(&consensus).expect("init");
+    let mut st = vec![St::Never; ub.len()];
+    st[0] = St::Stored;
+    let mut main: Vec<usize> = vec![0];
+    let ins_lines = |out: &mut Out, i: usize, b: &BlockView| {
+        for col in ["hdr", "unc", "prop", "txh"] {
+            out.op(&format!("sw {} {}", col, i), "ok");
+        }
+        if b.extension().is_some() {
+            out.op(&format!("sw ext {}", i), "ok");
+        }
+    };
+    let att_lines = |out: &mut Out, b: &BlockView| {
+        for t in b.transactions() {
+            for op in t.output_pts_iter() {
+                out.op(&format!("cw {}", cid[&op]), "ok");
+            }
+        }
+        for t in b.transactions().iter().skip(1) {
+            for op in t.input_pts_iter() {
+                // (the genesis transactions spend the null out-point)
+                if let Some(id) = cid.get(&op) {
+                    out.op(&format!("cd {}", id), "ok");
+                }
+            }
+        }
+    };
+    let det_lines = |out: &mut Out, b: &BlockView| {
+        for t in b.transactions().iter().skip(1) {
+            for op in t.input_pts_iter() {
+                out.op(&format!("cw {}", cid[&op]), "ok");
+            }
+        }
+        for t in b.transactions() {
+            for op in t.output_pts_iter() {
+                out.op(&format!("cd {}", cid[&op]), "ok");
+            }
+        }
+    };
+    ins_lines(out, 0, &ub[0]);
+    att_lines(out, &ub[0]);
+    let pq = *rng.pick(&[(1u64, 1u64), (1, 2), (1, 4)]);
+    let n_steps = rng.range(28, 40);
+    let mut n_q = 0u64;
+    let mut kinds = HashSet::new();
+    for step in 0..=n_steps {
+        // ---- one write (none at step 0: the first round queries a store that holds only genesis)
+        let mut did = "init".to_string();
+        if step > 0 {
+            let tip = *main.last().unwrap();
+            let on_main = |i: usize| main.contains(&i);
+            let parent = |i: usize| id_of[&ub[i].parent_hash()];
+            let mut cand: Vec<(&str, usize, u64)> = vec![];
+            for i in 1..ub.len() {
+                if st[i] != St::Stored && st[parent(i)] == St::Stored {
+                    cand.push(("ins", i, 6));
+                }
+                if st[i] == St::Stored && !on_main(i) && parent(i) == tip {
+                    cand.push(("att", i, 10));
+                    cand.push(("rb", i, 2));
+                }
+                if st[i] == St::Stored && !on_main(i) {
+                    cand.push(("del", i, 1));
+                }
+            }
+            if main.len() > 1 {
+                cand.push(("det", tip, if main.len() > 3 { 5 } else { 2 }));
+            }
+            let total: u64 = cand.iter().map(|c| c.2).sum();
+            let mut r = rng.below(total);
+            let mut pick = cand[0];
+            for c in &cand {
+                if r < c.2 {
+                    pick = *c;
+                    break;
+                }
+                r -= c.2;
+            }
+            let (kind, i, _) = pick;
+            let b = &ub[i];
+            let txn = w.begin_transaction();
+            match kind {
+                "ins" => {
+                    txn.insert_block(b).unwrap();
+                    let ext = BlockExt { received_at: 0, total_difficulty: Default::default(), total_uncles_count: 0, verified: None, txs_fees: vec![], cycles: None, txs_sizes: None };
+                    txn.insert_block_ext(&b.hash(), &ext).unwrap();
+                    txn.commit().unwrap();
+                    st[i] = St::Stored;
+                    ins_lines(out, i, b);
+                }
+                "att" => {
+                    txn.attach_block(b).unwrap();
+                    attach_block_cell(&txn, b).unwrap();
+                    txn.insert_tip_header(&b.header()).unwrap();
+                    txn.commit().unwrap();
+                    main.push(i);
+                    att_lines(out, b);
+                }
+                "rb" => {
+                    // a verification attempt that fails later: attached inside the transaction, read
+                    // through it (the cache is filled from uncommitted rows), never committed
+                    txn.attach_block(b).unwrap();
+                    attach_block_cell(&txn, b).unwrap();
+                    for t in b.transactions() {
+                        for op in t.output_pts_iter() {
+                            let _ = (txn.get_cell_data(&op), txn.get_cell_data_hash(&op), txn.have_cell(&op));
+                        }
+                    }
+                    let _ = (txn.get_block_extension(&b.hash()), txn.get_block_txs_hashes(&b.hash()), txn.get_block(&b.hash()).is_some());
+                    drop(txn);
+                }
+                "det" => {
+                    txn.detach_block(b).unwrap();
+                    detach_block_cell(&txn, b).unwrap();
+                    let p = &ub[id_of[&b.parent_hash()]];
+                    txn.insert_tip_header(&p.header()).unwrap();
+                    txn.commit().unwrap();
+                    main.pop();
+                    det_lines(out, b);
+                }
+                _ => {
+                    // delete_unverified_block: the block is read through the transaction, then deleted
+                    let blk = txn.get_block(&b.hash()).expect("stored block");
+                    txn.delete_block(&blk).unwrap();
+                    txn.commit().unwrap();
+                    st[i] = St::Deleted;
+                    for col in ["hdr", "unc", "prop", "txh", "ext"] {
+                        out.op(&format!("sd {} {}", col, i), "ok");
+                    }
+                }
+            }
+            did = format!("{} {}", kind, i);
+            kinds.insert(kind.to_string());
+            out.count(&format!("store:{}", kind));
+        }
+        // ---- one round of queries: warm (through a random view), cold, fresh, rows
+        let fresh = ChainDB::new(db.clone(), StoreConfig::default());
+        let mut diffs: Vec<String> = vec![];
+        for (i, b) in ub.iter().enumerate() {
+            let h = b.hash();
+            let row = z.get(COLUMN_BLOCK_HEADER, h.as_slice()).is_some();
+            assert_eq!(row, st[i] == St::Stored, "harness bookkeeping");
+            if st[i] == St::Deleted {
+                continue; // F6: content reads of a deleted hash are excluded until it is stored again
+            }
+            for a in 0..BLOCK_ACCESSORS.len() {
+                if !rng.chance(pq.0, pq.1) {
+                    continue;
+                }
+                let name = BLOCK_ACCESSORS[a];
+                let wa = match rng.below(3) {
+                    0 => block_answer(&w, a, &h),
+                    1 => block_answer(&w.get_snapshot(), a, &h),
+                    _ => block_answer(&w.begin_transaction(), a, &h),
+                };
+                let za = block_answer(&z, a, &h);
+                let fa = block_answer(&fresh, a, &h);
+                let ra = if row { block_expected(name, b).unwrap() } else { block_absent(name) };
+                n_q += 4;
+                if wa != za || fa != za || ra != za {
+                    diffs.push(format!("{} of block #{} ({:?}) after `{}` (step {}): warm({})={} cold={} fresh={} from-rows={}", name, i, st[i], did, step, warm_kind, short(&wa), short(&za), short(&fa), short(&ra)));
+                }
+                if let Some(col) = cached_col(a) {
+                    let ans = if wa == "none" { "none" } else if wa == ra { "some" } else { "some-wrong" };
+                    out.op(&format!("sr {} {}", col, i), ans);
+                }
+            }
+        }
+        for (j, (op, output, data)) in uc.iter().enumerate() {
+            if !rng.chance(pq.0, pq.1) {
+                continue;
+            }
+            let live = z.get(COLUMN_CELL, &op.to_cell_key()).is_some();
+            if live && rng.chance(1, 3) {
+                // what script verification does for a cell dep / an input: bare loads
+                let _ = (w.get_cell_data(op), w.get_cell_data_hash(op));
+                out.op(&format!("cl data {}", j), "ok");
+                out.op(&format!("cl hash {}", j), "ok");
+            }
+            let wa = cell_answers(&w, op);
+            let za = cell_answers(&z, op);
+            let fa = cell_answers(&fresh, op);
+            let ra = cell_expected(op, output, data, live);
+            n_q += 4 * wa.len() as u64;
+            if wa != za || fa != za || ra != za {
+                let k = (0..wa.len()).find(|k| wa[*k] != za[*k] || fa[*k] != za[*k] || ra[*k] != za[*k]).unwrap();
+                diffs.push(format!("cell #{} after `{}` (step {}): warm({}) {} / cold {} / fresh {} / from-rows {}", j, did, step, warm_kind, wa[k], za[k], fa[k], ra[k]));
+            }
+            let some = |x: &str| if x.ends_with("=none") { "none" } else { "some" };
+            out.op(&format!("live {}", j), if wa[0] == "have_cell=true" { "true" } else { "false" });
+            out.op(&format!("cg data {}", j), some(&wa[6]));
+            out.op(&format!("cg hash {}", j), some(&wa[7]));
+        }
+        for d in diffs {
+            out.oracle_fail("store-answer-differs", &d);
+        }
+    }
+    out.evaluations += n_q;
+    *out.hist.entry("store:queries-compared".into()).or_insert(0) += n_q;
+    out.count(&format!("store:final-main-chain-length={}", main.len()));
+    out.count(&format!("store:warm-caches={},query-density={}/{}", warm_kind, pq.0, pq.1));
+    let mut ks: Vec<String> = kinds.into_iter().collect();
+    ks.sort();
+    out.nontrivial(format!("store|{}|{}|{}|{:?}", warm_kind, n_steps, ks.join(","), pq));
+    drop(w);
+    drop(z);
+    drop(db);
+    drop(bld);
+    let _ = std::fs::remove_dir_all(&dir);
+}
+
 pub fn run(opts: &Opts) {
     let mut out = Out::new(&opts.out);
     let base = scratch_dir(&opts.out, "c14");
@@ -695,8 +1731,13 @@ pub fn run(opts: &Opts) {
         for l in read_replay_ops(p) {
             if l.starts_with("case ") {
                 if let Some(s) = l.split_whitespace().find_map(|t| t.strip_prefix("seed=")) {
+                    let var = l.split_whitespace().find_map(|t| t.strip_prefix("var="));
                     if l.contains("kind=pool") {
                         run_pool_case(&mut out, s.parse().expect("seed"), &base, cyc);
+                    } else if l.contains("kind=store") {
+                        run_store_case(&mut out, s.parse().expect("seed"), &base);
+                    } else if l.contains("kind=vc") {
+                        run_vc_case(&mut out, s.parse().expect("seed"), &base, cyc, var);
                     } else {
                         run_case(&mut out, s.parse().expect("seed"), &base, cyc);
                     }
@@ -717,7 +1758,15 @@ pub fn run(opts: &Opts) {
         for i in 0..pool_cases {
             run_pool_case(&mut out, opts.seed.wrapping_mul(1_000_003).wrapping_add(i), &base, cyc);
         }
+        let store_cases = if opts.thorough() { 80 * opts.scale } else { 16 * opts.scale };
+        for i in 0..store_cases {
+            run_store_case(&mut out, opts.seed.wrapping_mul(1_000_003).wrapping_add(i), &base);
+        }
+        let vc_cases = if opts.thorough() { 10 * opts.scale } else { 6 * opts.scale };
+        for i in 0..vc_cases {
+            run_vc_case(&mut out, opts.seed.wrapping_mul(1_000_003).wrapping_add(i), &base, cyc, Some(if i % 2 == 0 { "rel" } else { "ts" }));
+        }
     }
     let _ = std::fs::remove_dir_all(&base);
-    out.finish("a case = two real nodes (store caches size 0 + verification cache emptied before every block, vs default or size-1 store caches + verification cache kept) fed the same history: transactions proposed once, committed on a first branch, then re-committed at other positions on a heavier branch (A with one of two witness sets under the same tx hash, B, and S with a relative since that is immature at one position and mature at others), one block refused for immaturity, one invalid block and its child; after the history every block hash and out-point is queried on both nodes; every case is non-trivial (it contains a reorg re-commit and a since-dependent refusal); distinct by (window, epoch length, since distance, witness variants used)");
+    out.finish("a case = two real nodes (store caches size 0 + verification cache emptied before every block, vs default or size-1 store caches + verification cache kept) fed the same history: transactions proposed once, committed on a first branch, then re-committed at other positions on a heavier branch (A with one of two witness sets under the same tx hash, B, and S with a relative since that is immature at one position and mature at others), one block refused for immaturity, one invalid block and its child; after the history every block hash and out-point is queried on both nodes; every case is non-trivial (it contains a reorg re-commit and a since-dependent refusal); distinct by (window, epoch length, since distance, witness variants used). Before every delivery the content accessors are asked for the not-yet-stored hash on both nodes, after it for the stored block, and liveness / guarded data / data hash of every tracked out-point through handle, snapshot and store transaction. kind=vc: a lock that execs witness 0 and a since (relative number | absolute timestamp): branch A commits T with passing witnesses, branch B the same tx hash with failing ones on the block that makes B heaviest, branch C is valid and heavier with T immature in its context; test_accept_tx / submit_local_tx / notify_txs / a block are probed with T immature (and, for the relative variant, again mature with both witness sets); distinct by (variant, epoch length, since). kind=store: one RocksDB under a warm (default | size-1 | size-3 caches), a cold (size 0) and a per-round fresh ChainDB; 28-40 random insert / attach / detach / delete / rolled-back-attach steps over a 10-block tree (fork, uncle, empty-data output, extension-less block), after each a round of all accessors over all block hashes and out-points (stored or not) through handle / snapshot / transaction, compared with the cold store, the fresh store and the raw rows; distinct by (cache sizes, steps, op kinds, query density)");
 }
